@@ -47,10 +47,10 @@ def history_sig(mod, scenario):
         if extra is not None:
             tag += extra(op)
         kinds.append(tag)
+        if k in obs and seen_mut:
+            nontrivial = True
         if k in mut:
             seen_mut = True
-        elif k in obs and seen_mut:
-            nontrivial = True
     if getattr(mod, 'ALWAYS_OBSERVED', False) and seen_mut:
         nontrivial = True
     head = getattr(mod, 'recipe_tag', lambda s: '')(scenario)
